@@ -60,6 +60,24 @@ def valEq : Value → Value → Bool
   | .text s, .text t => s == t
   | _, _ => false
 
+/-- `a ⊆ b` for polyhedral values and grids (used for `Determinate::definitely_entails`) -/
+def valSubset : Value → Value → Option Bool
+  | .poly n cs, .poly m ds => some (n == m && Lin.subsetB n cs ds)
+  | .grid n a, .grid m b => some (n == m && Lattice.subsetB (gridGens n a) (gridGens n b))
+  | _, _ => none
+
+/-- the value is the empty set -/
+def valIsEmpty : Value → Option Bool
+  | .poly n cs => some (Lin.isEmptyB n cs)
+  | .grid n a => some (gridGens n a).isEmpty
+  | _ => none
+
+/-- the value is the whole space -/
+def valIsUniv : Value → Option Bool
+  | .poly n cs => some (Lin.equivB n cs [])
+  | .grid n a => some (Lattice.equivB (gridGens n a) (Lattice.univ n))
+  | _ => none
+
 /-- size guard for the exponential fallback of K1 (dimension, rows) -/
 def Value.size : Value → Nat
   | .poly n cs => n * cs.length
